@@ -31,6 +31,8 @@ type impl struct {
 	fp       func() string
 	alloc    func(id string) (int, error)
 	allocF   func(id string) (int, error) // allocation with the persistence write failing
+	allocM   func(id string) (int, error) // AllocateWithMAC
+	allocMF  func(id string) (int, error) // AllocateWithMAC with the persistence write failing
 	release  func(id string) error
 	releaseF func(id string) error // release with the persistence delete failing
 	renew    func(id string) error
@@ -298,10 +300,10 @@ func distributedAdapter(g Geometry, mode allocator.PoolMode, grace int) Adapter 
 	ad := Adapter{Impl: "allocator.DistributedAllocator-" + string(mode), Geo: g, subID: defaultSubID}
 	if mode == allocator.PoolModeLease {
 		ad.Mode, ad.Grace, ad.Usable = "lease", grace, seq(1, n-2)
-		ad.Ops = []string{"alloc", "release", "renew", "advance", "allocf"}
+		ad.Ops = []string{"alloc", "release", "renew", "advance", "allocf", "allocm", "allocmf"}
 	} else {
 		ad.Mode, ad.Usable = "session", seq(0, n-1)
-		ad.Ops = []string{"alloc", "release", "reload", "allocf"}
+		ad.Ops = []string{"alloc", "release", "reload", "allocf", "allocm", "allocmf"}
 	}
 	ad.mk = func() *impl {
 		st := NewKVStore()
@@ -330,6 +332,20 @@ func distributedAdapter(g Geometry, mode allocator.PoolMode, grace int) Adapter 
 		im.allocF = func(id string) (int, error) {
 			st.FailPut = true
 			u, err := doAlloc(id)
+			st.FailPut = false
+			return u, err
+		}
+		doAllocM := func(id string) (int, error) {
+			p, err := da.AllocateWithMAC(bg, id, net.HardwareAddr{2, 0, 0, 0, 9, byte(len(id))})
+			if err != nil {
+				return -1, err
+			}
+			return g.UnitOfNet(p), nil
+		}
+		im.allocM = doAllocM
+		im.allocMF = func(id string) (int, error) {
+			st.FailPut = true
+			u, err := doAllocM(id)
 			st.FailPut = false
 			return u, err
 		}
